@@ -63,3 +63,31 @@ def explore(make, name, values, op, same, depth, p, sub, what, first_only_fresh=
                             f"{what}: on one object, after setting attrs[{name!r}] through the history {shown} (operation called after every step) the "
                             f"result differs from the same call on a fresh object with attrs[{name!r}] = {shown[-1]}")
     return hist
+
+
+def selftest():
+    """The explorer must flag an object that remembers the first attribute value it saw, and accept one that reads
+    the attribute on every call."""
+    from . import core
+
+    class Obj:
+        def __init__(self):
+            self.attrs = {}
+            self.memo = None
+
+    def stale(o):
+        if o.memo is None:
+            o.memo = o.attrs.get("nodata", -1)
+        return o.memo
+
+    def fresh_read(o):
+        return o.attrs.get("nodata", -1)
+
+    p = core.Partial()
+    explore(Obj, "nodata", [ABSENT, 0, 7], stale, lambda a, b: a == b, 2, p, "t", "stale")
+    assert p.violations, "attribute-history explorer failed to flag a remembered attribute"
+    assert all(len(v["key"]["history"]) == 2 for v in p.violations)      # needs a second step
+    q = core.Partial()
+    n = explore(Obj, "nodata", [ABSENT, 0, 7], fresh_read, lambda a, b: a == b, 3, q, "t", "fresh")
+    assert not q.violations and n == 3 + 6 + 12
+    return True
